@@ -213,8 +213,10 @@ pub fn run(tier: Tier) -> Run {
         {
             use rayon::prelude::*;
             let work: Vec<(usize, u32, usize)> = enum_ops.iter().enumerate().flat_map(|(xi, _)| decl[xi].iter().copied().enumerate().map(move |(k, a)| (xi, a, k))).collect();
+            // on ONE thread, with nothing else running: conversions made by other threads in between would break up the run
+            // of identical conversions
             let bad: Vec<crate::report::Viol> = work
-                .par_iter()
+                .iter()
                 .filter_map(|&(xi, a, k)| {
                     let x = &enum_ops[xi];
                     let reps = if k % 25 == 0 { 70_000 } else { 5_000 };
